@@ -16,7 +16,12 @@
  *                                                 base, a<k> augment of import k's container, n<k><j> augment into the node
  *                                                 import j's augment adds to import k, v<k> deviation of import k, r<k> leafref
  *                                                 into import k (implements it), w<k> must referring to import k (implements
- *                                                 it with LY_CTX_REF_IMPLEMENTED). `*` after I/i: to_compile or not compiled yet. Output per
+ *                                                 it with LY_CTX_REF_IMPLEMENTED), q the features are defined in the submodule
+ *                                                 only, Q the first feature in the module and the others in the submodule, z the
+ *                                                 features in a second submodule that the first one includes as well.
+ *                                                 Extra ops: O <flags> ly_ctx_set_options, U <flags> ly_ctx_unset_options (flag
+ *                                                 bits as above, 16 LY_CTX_SET_PRIV_PARSED); the observable ends with ;O:<flags>
+ *                                                 (ly_ctx_get_options). `*` after I/i: to_compile or not compiled yet. Output per
  *                                                 op: <ok|E|nomod>;<module> ...;L:..;M:.. S<=|!|.> with <module> =
  *                                                 <name><rev><I|i>{features}id[<identity>(<derived>..)..]ab[..]db[..]c=<hash|->
  *                                                 (identities[].derived, augmented_by, deviated_by, compiled YANG print)
@@ -89,6 +94,8 @@ struct mdesc {
         int k, j;
     } nest[2];
     char subimp;                        /* 0 or the name of the module the submodule imports */
+    int subfeat;                        /* 0 features in the module, 1 all in the submodule, 2 first in the module, rest in the
+                                         * submodule, 3 all in a second submodule */
 };
 
 static struct mdesc repo[MAXREPO];
@@ -180,6 +187,12 @@ parse_mdesc(char *s, struct mdesc *d)
                 ++d->nnest;
             } else if ((p[0] == 's') && p[1]) {
                 d->subimp = p[1];
+            } else if (!strcmp(p, "q")) {
+                d->subfeat = 1;
+            } else if (!strcmp(p, "Q")) {
+                d->subfeat = 2;
+            } else if (!strcmp(p, "z")) {
+                d->subfeat = 3;
             } else {
                 return 1;
             }
@@ -340,6 +353,25 @@ gen_text(const struct mdesc *d, int fault)
 /* ---------- richer modules (ctxr) ---------- */
 static int rich_mode;
 
+static void
+gen_features(struct sbuf *b, const struct mdesc *d, int from, int to)
+{
+    int i, j;
+
+    for (i = from; (i < to) && (i < d->nfeat); ++i) {
+        sb_fmt(b, "  feature %s", d->feat[i].name);
+        if (d->feat[i].ndep) {
+            sb_fmt(b, " { if-feature \"");
+            for (j = 0; j < d->feat[i].ndep; ++j) {
+                sb_fmt(b, "%s%s", j ? " and " : "", d->feat[i].dep[j]);
+            }
+            sb_fmt(b, "\"; }\n");
+        } else {
+            sb_fmt(b, ";\n");
+        }
+    }
+}
+
 static char *
 gen_text_rich(const struct mdesc *d, int fault)
 {
@@ -355,24 +387,16 @@ gen_text_rich(const struct mdesc *d, int fault)
         }
         sb_fmt(&b, " }\n");
     }
-    if (d->subimp) {
+    if (d->subimp || (d->subfeat && d->nfeat)) {
         sb_fmt(&b, "  include %c-sub;\n", d->name);
+    }
+    if ((d->subfeat == 3) && d->nfeat) {
+        sb_fmt(&b, "  include %c-sub2;\n", d->name);
     }
     if (d->rev) {
         sb_fmt(&b, "  revision %s;\n", DATES[d->rev]);
     }
-    for (i = 0; i < d->nfeat; ++i) {
-        sb_fmt(&b, "  feature %s", d->feat[i].name);
-        if (d->feat[i].ndep) {
-            sb_fmt(&b, " { if-feature \"");
-            for (j = 0; j < d->feat[i].ndep; ++j) {
-                sb_fmt(&b, "%s%s", j ? " and " : "", d->feat[i].dep[j]);
-            }
-            sb_fmt(&b, "\"; }\n");
-        } else {
-            sb_fmt(&b, ";\n");
-        }
-    }
+    gen_features(&b, d, 0, !d->subfeat ? d->nfeat : ((d->subfeat == 2) ? 1 : 0));
     if (fault == 2) {
         sb_fmt(&b, "  feature zdup;\n  feature zdup;\n");
     }
@@ -428,17 +452,37 @@ gen_text_rich(const struct mdesc *d, int fault)
 }
 
 static char *
-gen_text_sub(const struct mdesc *d)
+gen_text_sub(const struct mdesc *d, int second)
 {
     struct sbuf b = {0};
-    const struct mdesc *t = repo_by_name(d->subimp);
+    const struct mdesc *t = d->subimp ? repo_by_name(d->subimp) : NULL;
 
-    sb_fmt(&b, "submodule %c-sub {\n  yang-version 1.1;\n  belongs-to %c { prefix %c; }\n  import %c { prefix sx;", d->name, d->name,
-            d->name, d->subimp);
-    if (t && t->rev) {
-        sb_fmt(&b, " revision-date %s;", DATES[t->rev]);
+    sb_fmt(&b, "submodule %c-sub%s {\n  yang-version 1.1;\n  belongs-to %c { prefix %c; }\n", d->name, second ? "2" : "", d->name,
+            d->name);
+    if (second) {
+        gen_features(&b, d, 0, d->nfeat);
+        sb_fmt(&b, "}\n");
+        return b.s;
     }
-    sb_fmt(&b, " }\n  identity sid { base sx:base; }\n}\n");
+    if (d->subimp) {
+        sb_fmt(&b, "  import %c { prefix sx;", d->subimp);
+        if (t && t->rev) {
+            sb_fmt(&b, " revision-date %s;", DATES[t->rev]);
+        }
+        sb_fmt(&b, " }\n");
+    }
+    if ((d->subfeat == 3) && d->nfeat) {
+        sb_fmt(&b, "  include %c-sub2;\n", d->name);
+    }
+    if (d->subfeat == 1) {
+        gen_features(&b, d, 0, d->nfeat);
+    } else if (d->subfeat == 2) {
+        gen_features(&b, d, 1, d->nfeat);
+    }
+    if (d->subimp) {
+        sb_fmt(&b, "  identity sid { base sx:base; }\n");
+    }
+    sb_fmt(&b, "}\n");
     return b.s;
 }
 
@@ -462,11 +506,11 @@ imp_clb(const char *mod_name, const char *mod_rev, const char *submod_name, cons
     }
     if (submod_name) {
         d = repo_by_name(mod_name[0]);
-        if (!rich_mode || !d || !d->subimp) {
+        if (!rich_mode || !d || (!d->subimp && !(d->subfeat && d->nfeat))) {
             return LY_ENOTFOUND;
         }
         *format = LYS_IN_YANG;
-        *module_data = gen_text_sub(d);
+        *module_data = gen_text_sub(d, strlen(submod_name) > 5);
         *free_module_data = free_text;
         return LY_SUCCESS;
     }
@@ -699,6 +743,13 @@ do_op(struct ly_ctx *ctx, const char *opstr)
         }
     } else if (!strcmp(w[0], "C") && (nw == 1)) {
         rc = ly_ctx_compile(ctx) ? 1 : 0;
+    } else if ((!strcmp(w[0], "O") || !strcmp(w[0], "U")) && (nw == 2)) {
+        int fl = atoi(w[1]);
+        uint16_t op = ((fl & 1) ? LY_CTX_EXPLICIT_COMPILE : 0) | ((fl & 2) ? LY_CTX_ENABLE_IMP_FEATURES : 0) |
+                ((fl & 4) ? LY_CTX_REF_IMPLEMENTED : 0) | ((fl & 8) ? LY_CTX_ALL_IMPLEMENTED : 0) |
+                ((fl & 16) ? LY_CTX_SET_PRIV_PARSED : 0);
+
+        rc = ((w[0][0] == 'O') ? ly_ctx_set_options(ctx, op) : ly_ctx_unset_options(ctx, op)) ? 1 : 0;
     }
 done:
     free(copy);
@@ -913,9 +964,14 @@ print_obs_rich(struct ly_ctx *ctx, struct sbuf *o)
         sb_fmt(o, "%s%s%d%c%s{", firstm ? "" : " ", m->name, rev_of_mod(m), m->implemented ? 'I' : 'i',
                 (m->to_compile || (m->implemented && !m->compiled)) ? "*" : "");
         firstm = 0;
-        LY_ARRAY_FOR(m->parsed->features, u) {
-            sb_fmt(o, "%s%s%c", u ? "," : "", m->parsed->features[u].name,
-                    (lys_feature_value(m, m->parsed->features[u].name) == LY_SUCCESS) ? '+' : '-');
+        {
+            struct lysp_feature *f = NULL;
+            uint32_t fi = 0;
+            int nf = 0;
+
+            while ((f = lysp_feature_next(f, m->parsed, &fi))) {
+                sb_fmt(o, "%s%s%c", nf++ ? "," : "", f->name, (lys_feature_value(m, f->name) == LY_SUCCESS) ? '+' : '-');
+            }
         }
         sb_fmt(o, "}id[");
         LY_ARRAY_FOR(m->identities, u) {
@@ -974,6 +1030,13 @@ print_obs_rich(struct ly_ctx *ctx, struct sbuf *o)
         nm[0] = 'a' + k;
         m = ly_ctx_get_module_implemented(ctx, nm);
         sb_fmt(o, m ? "%d" : "-", m ? rev_of_mod(m) : 0);
+    }
+    {
+        uint16_t op = ly_ctx_get_options(ctx);
+
+        sb_fmt(o, ";O:%d", ((op & LY_CTX_EXPLICIT_COMPILE) ? 1 : 0) | ((op & LY_CTX_ENABLE_IMP_FEATURES) ? 2 : 0) |
+                ((op & LY_CTX_REF_IMPLEMENTED) ? 4 : 0) | ((op & LY_CTX_ALL_IMPLEMENTED) ? 8 : 0) |
+                ((op & LY_CTX_SET_PRIV_PARSED) ? 16 : 0));
     }
 }
 
